@@ -884,6 +884,19 @@ func (x *Exec) valEq(st *State, a, b *Val, t types.Type) *Term {
 				return Eq(a.T, IntLit(0))
 			}
 		}
+		if b.K == kFunc {
+			// Go only allows comparing a func value with nil: one side is the nil func (id 0)
+			switch {
+			case a.Fn != nil && b.Fn != nil:
+				return BoolLit(a.Fn == b.Fn)
+			case a.Fn != nil && b.T != nil:
+				return Eq(IntLit(x.funcID(a)), b.T)
+			case b.Fn != nil && a.T != nil:
+				return Eq(IntLit(x.funcID(b)), a.T)
+			case a.T != nil && b.T != nil:
+				return Eq(a.T, b.T)
+			}
+		}
 	}
 	panic(unsupported{fmt.Sprintf("equality on %s and %s", a, b)})
 }
